@@ -209,10 +209,11 @@ fn family(cx: &mut Ctx, stream: &[u8], limit: u128, oracle: bool, note: &str, al
         emit(cx, gram::cut(stream, &[c]), e);
     }
     for _ in 0..n_two_cuts {
-        let mut cs: Vec<usize> = if !interesting.is_empty() && cx.rng.gen_bool(0.7) {
-            (0..2).map(|_| *interesting.choose(&mut cx.rng).unwrap()).collect()
-        } else {
-            gram::random_cuts(&mut cx.rng, stream.len(), 2)
+        let mut cs: Vec<usize> = match (interesting.is_empty(), cx.rng.gen_range(0..10)) {
+            (false, 0..=3) => (0..2).map(|_| *interesting.choose(&mut cx.rng).unwrap()).collect(),
+            // one cut anywhere (typically inside a line), one next to a line end / request boundary
+            (false, 4..=7) => vec![cx.rng.gen_range(1..stream.len()), *interesting.choose(&mut cx.rng).unwrap()],
+            _ => gram::random_cuts(&mut cx.rng, stream.len(), 2),
         };
         if cx.rng.gen_bool(0.3) {
             cs.extend(gram::random_cuts(&mut cx.rng, stream.len(), 3));
@@ -236,7 +237,7 @@ pub fn c01(cx: &mut Ctx) {
             if i % stride != off {
                 continue;
             }
-            let two = if cx.thorough { 12 } else { 4 };
+            let two = if cx.thorough { 16 } else { 6 };
             family(cx, s, 5, false, "pieces", true, two);
         }
         // well-formed pipelines from the grammar (oracle on as well)
@@ -246,7 +247,7 @@ pub fn c01(cx: &mut Ctx) {
             for _ in 0..k {
                 s.extend(gram::valid(&mut cx.rng, &o).bytes());
             }
-            family(cx, &s, 51200, true, "pipeline", true, 6);
+            family(cx, &s, 51200, true, "pipeline", true, if cx.thorough { 60 } else { 16 });
         }
     } else {
         // full window: critical tokens straddling the window edge; long bodies and lines
